@@ -178,9 +178,21 @@ def _records(P, R):
 
 def _cascade(P, R):
     fn = P.one(TMS + "::retract_with_cascade")
+    if not [c for c in fn.calls() if c.resolved == fn.name and c.bb in fn.normal_blocks()]:
+        # the recursion may live in a private helper (`cascade_into(fact, &mut out)`): the cascade function is the self-recursive
+        # function of the TMS that retract_with_cascade calls and that reads fact_dependents
+        for c in fn.calls():
+            h = P.fns.get(c.resolved) if c.resolved else None
+            if h is not None and h.impl_self == TMS and h.name != fn.name and any(x.resolved == h.name for x in h.calls()):
+                hv_ = P.inlined(h)
+                if A.calls_with_receiver_field(hv_, "fact_dependents", TMS):
+                    R.note("retract_with_cascade delegates the cascade to %s" % h.short_name)
+                    fn = hv_
+                    break
+    handle_is_param = lambda sym: strip(sym)[0] == "param" and strip(sym)[1] == 2
     mark = [c for (c, s) in A.calls_with_receiver_field(fn, "retracted_facts", TMS) if c.name.endswith("HashSet::insert")]
     deps = [c for (c, s) in A.calls_with_receiver_field(fn, "fact_dependents", TMS) if c.name.endswith("HashMap::get")]
-    if mark and deps and all(fn.dominates(mark[0].bb, d.bb) and mark[0].bb != d.bb for d in deps) and fmt_sym(fn.sym_operand(mark[0].args[1]), maxdepth=4) == "fact_handle":
+    if mark and deps and all(fn.dominates(mark[0].bb, d.bb) and mark[0].bb != d.bb for d in deps) and (fmt_sym(fn.sym_operand(mark[0].args[1]), maxdepth=4) == "fact_handle" or handle_is_param(fn.sym_operand(mark[0].args[1]))):
         R.hold("d", "the handle is marked retracted before its dependents are consulted", fn=fn)
     else:
         R.violate("d", "cascade:mark-order", "retract_with_cascade must insert the handle into retracted_facts before reading fact_dependents (otherwise its own dependents still see it as a valid premise)", fn)
@@ -193,14 +205,22 @@ def _cascade(P, R):
         fresh = any("HashSet::contains(self.retracted_facts," in a and v is False for a, v in gs)
         arg = fmt_sym(fn.sym_operand(c.args[1]), maxdepth=8)
         dep_arg = arg.endswith(".fact_handle") and "justifications" in arg
-        if unsupported and fresh and dep_arg:
+        extra = [a for a, v in gs if "has_valid_justification(self," not in a and "HashSet::contains(self.retracted_facts," not in a and "debug" not in a
+                 and ("HashSet::insert(" in a or "HashSet::contains(" in a or "HashMap::contains_key(" in a)]
+        if extra and unsupported and fresh and dep_arg:
+            R.violate("d", "cascade:extra-guard", "the recursive cascade is additionally conditional on %s: a dependent examined (or skipped) once is never re-examined when its last justification dies later in the same cascade" % extra[:2], fn, c.line)
+        elif unsupported and fresh and dep_arg:
             R.hold("d", "recursion only on a dependent that has no valid justification and is not yet retracted (terminates: the retracted set grows)", fn=fn, line=c.line)
         else:
             R.violate("d", "cascade:recursion-guard", "the recursive cascade is not guarded by `!has_valid_justification(dep)` (%s) and `!retracted_facts.contains(dep)` (%s) on the dependent's own handle (%s)" % (unsupported, fresh, dep_arg), fn, c.line)
         # result collected
         ext = [x for x in fn.calls() if x.name.endswith(("Vec::extend", "Extend::extend", "Vec::append")) or x.dname == "std::iter::Extend::extend"]
+        acc = [a for a in c.args[1:] if strip(fn.sym_operand(a))[0] == "param" and "Vec<" in (fn.local_ty(strip(fn.sym_operand(a))[1]) or "")]
+        acc_push = acc and any(x.name == "std::vec::Vec::push" and strip(fn.sym_operand(x.args[0])) == strip(fn.sym_operand(acc[0])) for x in fn.calls() if x.bb in fn.normal_blocks())
         if any(any(y[0] == "call" and y[3] == c.bb for y in walk(fn.sym_operand(x.args[1]))) for x in ext if len(x.args) > 1):
             R.hold("d", "handles cascaded by the recursive call are returned to the caller", fn=fn, line=c.line)
+        elif acc_push:
+            R.hold("d", "the recursive call appends to the same accumulator the function pushes its own handle on", fn=fn, line=c.line)
         else:
             R.violate("d", "cascade:result-dropped", "the handles retracted by the recursive cascade are not added to the returned list (the engine would leave them in working memory)", fn, c.line)
     # all dependents visited
@@ -224,6 +244,14 @@ def _cascade(P, R):
                     if len(rets) == 1 and fmt_sym(strip(rets[0][1]), maxdepth=6).startswith(J + "::is_valid(") and "retracted_facts" in fmt_sym(rets[0][1], maxdepth=8):
                         okq = True
     src = [c for (c, s) in A.calls_with_receiver_field(hv, "fact_justifications", TMS)]
+    if not okq:
+        # loop form: `for id in ids { if justification(id).is_valid(&self.retracted_facts) { return true } } false`
+        rows, capped = A.decision_rows(hv)
+        trues = [(conds, ret) for conds, ret in rows if ret is not None and strip(ret) == ("const", "bool", True)]
+        in_loop = any(c.resolved == J + "::is_valid" and any(c.bb in lp["body"] for lp in hv.loops()) for c in hv.calls())
+        if trues and in_loop and not capped and all(any(isinstance(o, bool) and o is True and strip(c)[0] == "call" and strip(c)[1] == J + "::is_valid" and "retracted_facts" in fmt_sym(c, maxdepth=8) for c, o in conds) for conds, ret in trues) \
+                and any(ret is not None and strip(ret) == ("const", "bool", False) for conds, ret in rows):
+            okq = True
     if okq and src:
         R.hold("d", "has_valid_justification == any(justification of the fact is_valid(retracted_facts))", fn=hv)
     else:
@@ -231,21 +259,41 @@ def _cascade(P, R):
     iv = P.one(J + "::is_valid")
     rows, capped = A.decision_rows(iv)
     okv = True
+    form_all = False
     for conds, ret in rows:
         ctxt = [(fmt_sym(strip(c), maxdepth=8), o) for c, o in conds]
         rs = fmt_sym(strip(ret), maxdepth=10) if ret else ""
         explicit = [o for (t, o) in ctxt if "justification_type" in t and "JustificationType::Explicit" in t]
+        # `match self.justification_type { Explicit => true, Logical => .. }` tests the discriminant instead of `==`
+        if not explicit:
+            for c, o in conds:
+                t = fmt_sym(strip(c), maxdepth=8)
+                if "justification_type" in t and isinstance(o, tuple):
+                    if o == ("is", "Explicit"):
+                        explicit = [True]
+                    elif o == ("is", "Logical") or (o[0] == "not" and "Explicit" in o[1]):
+                        explicit = [False]
         if not explicit:
             okv = False
         if explicit and explicit[0] is True:
             if rs != "true":
                 okv = False
         else:
-            if not (rs.startswith("Not(") and "::any(" in rs and "premise_facts" in rs):
+            if rs.startswith("Not(") and "::any(" in rs and "premise_facts" in rs:
+                pass
+            elif not rs.startswith("Not(") and "::all(" in rs and "premise_facts" in rs:
+                form_all = True       # premises.all(|p| !retracted.contains(p))
+            else:
                 okv = False
-    # the closure: retracted.contains(premise)
+    # the closure: retracted.contains(premise)  (negated in the all(..) form)
     cls = P.closures_of(iv)
-    okc = any(len(A.returned_syms(c)) == 1 and "HashSet::contains(" in fmt_sym(A.returned_syms(c)[0][1], maxdepth=6) and not fmt_sym(strip(A.returned_syms(c)[0][1]), maxdepth=6).startswith("Not(") for c in cls)
+    def _cl_ok(c):
+        rs_ = A.returned_syms(c)
+        if len(rs_) != 1:
+            return False
+        t = fmt_sym(strip(rs_[0][1]), maxdepth=6)
+        return "HashSet::contains(" in t and (t.startswith("Not(") == form_all)
+    okc = any(_cl_ok(c) for c in cls)
     if okv and okc and rows:
         R.hold("d", "Justification::is_valid == explicit || !premises.any(|p| retracted.contains(p))", "%d rows" % len(rows), iv)
     else:
